@@ -5,10 +5,12 @@
 
    (1) reachable_sessions      every session has Created > 0, a non-zero LastNonPing and is not marked deleted, hence
                                is reproduced field by field (reachable_reload_session);
-   (2) reload_fixpoint         reload sv = normal sv, where [normal] applies exactly two normalisations:
-                               (a) sv_serverSessions becomes the sorted duplicate-free list of the listed ids that
-                                   still name a services link, (b) Config.WhitelistedOrigins becomes empty.
-                               (a) is the identity iff the list is sorted and has no stale id
+   (2) reload_fixpoint         reload sv = normal sv, where [normal] applies exactly ONE normalisation:
+                               sv_serverSessions becomes the sorted duplicate-free list of the listed ids that still
+                               name a services link; every other component — sessions, nick index, channels, holds,
+                               network name, lastProcessed and the WHOLE configuration including WhitelistedOrigins
+                               (part of the snapshot since the repair of snapshot.proto) — is unchanged.
+                               The normalisation is the identity iff the list is sorted and has no stale id
                                (normal_serverSessions_id_iff); neither is an invariant of the implementation:
                                links may register out of id order (ex_order) and the id of a link that quit stays
                                listed (ex_stale — D13 of DESIGN.md, same in ircserver.go: nothing ever removes an
@@ -16,14 +18,12 @@
    (3) reload_invisible        for EVERY continuation (well-formed or not, panicking or not) the run from [reload sv]
                                and the run from [sv] produce, entry by entry, the same kind of outcome, the same
                                output messages (reply number, text, recipients) up to recipients that are stale
-                               ids of [sv], and successor states that agree in every field except
-                               WhitelistedOrigins and the representation of sv_serverSessions;
-       reload_invisible_exact  if sv_serverSessions has no stale id the outputs are literally equal;
+                               ids of [sv], and successor states that agree in every field except the
+                               representation of sv_serverSessions;
+       reload_invisible_exact  if sv_serverSessions has no stale id the outputs are literally equal and the states
+                               differ only in the order of sv_serverSessions;
        reload_commutes         running a continuation and then saving + loading gives the same state whether or not
-                               the state was saved + loaded before the continuation.
-   No handler of the IRC state machine reads WhitelistedOrigins (it is read by the HTTP layer only,
-   IRCServer.OriginWhitelisted): this is what the bisimulation of ReloadSim.v establishes; that the field is lost by
-   save + load remains the open finding C03_refuted_whitelisted_origins. *)
+                               the state was saved + loaded before the continuation. *)
 From stdpp Require Import gmap.
 From Coq Require Import Strings.String Strings.Ascii ZArith NArith Lia Sorting.Sorted.
 From RV Require Import Base.Text Irc.Str Irc.Parse Irc.State Irc.Monad Irc.Cmds Irc.SCmds Irc.Apply.
@@ -87,19 +87,22 @@ Proof. intros Hr. apply (t_srv sv (reachable_TInv _ _ _ Hr)). Qed.
 Definition is_server_id (sv : server) (id : N) : bool :=
   match sv_sessions sv !! (id, 0%N) with Some s => s_server s | None => false end.
 
-(* the two normalisations *)
+(* the normalisation *)
 Definition normal (sv : server) : server :=
   Server (sv_sessions sv)
          (set_of_ids (List.filter (is_server_id sv) (sv_serverSessions sv)))
-         (sv_nicks sv) (sv_channels sv) (sv_svsholds sv) (sv_netname sv) (sv_lastProcessed sv)
-         (let g := sv_config sv in
-          Config (g_revision g) (g_expiration g) (g_cooloff g) (g_maxSessions g) (g_maxChannels g) (g_captchaURL g)
-                 (g_captchaHMAC g) (g_captchaLogin g) (g_operators g) (g_services g) (g_banned g)
-                 (g_trustedBridges g) ∅).
+         (sv_nicks sv) (sv_channels sv) (sv_svsholds sv) (sv_netname sv) (sv_lastProcessed sv) (sv_config sv).
 
 Lemma normal_patch sv :
-  normal sv = patch (set_of_ids (List.filter (is_server_id sv) (sv_serverSessions sv))) ∅ sv.
+  normal sv = patch (set_of_ids (List.filter (is_server_id sv) (sv_serverSessions sv))) sv.
 Proof. reflexivity. Qed.
+
+(* everything but the list of services links is untouched *)
+Lemma normal_fields sv :
+  sv_sessions (normal sv) = sv_sessions sv /\ sv_nicks (normal sv) = sv_nicks sv /\ sv_channels (normal sv) = sv_channels sv /\
+  sv_svsholds (normal sv) = sv_svsholds sv /\ sv_netname (normal sv) = sv_netname sv /\
+  sv_lastProcessed (normal sv) = sv_lastProcessed sv /\ sv_config (normal sv) = sv_config sv.
+Proof. repeat split. Qed.
 
 Lemma server_ext (a b : server) :
   sv_sessions a = sv_sessions b -> sv_serverSessions a = sv_serverSessions b -> sv_nicks a = sv_nicks b ->
@@ -132,7 +135,7 @@ Proof.
   - reflexivity.
   - reflexivity.
   - reflexivity.
-  - reflexivity.
+  - change (sv_config (normal sv)) with (sv_config sv). apply reload_config.
 Qed.
 
 Theorem reload_fixpoint e net sv : reachable e net sv -> reload sv = normal sv.
@@ -168,6 +171,25 @@ Proof.
     intros x. rewrite set_of_ids_In, filter_In. split; [tauto|]. intros Hx. split; [exact Hx|now apply Hall].
 Qed.
 
+(* the full fixpoint: a reachable state whose list of services links is sorted and has no stale id is reproduced
+   exactly *)
+Theorem reload_identity e net sv :
+  reachable e net sv -> StronglySorted N.lt (sv_serverSessions sv) ->
+  (forall x, In x (sv_serverSessions sv) -> is_server_id sv x = true) -> reload sv = sv.
+Proof.
+  intros Hr Hs Hall. rewrite (reload_fixpoint e net sv Hr).
+  apply server_ext; try reflexivity. apply normal_serverSessions_id_iff. auto.
+Qed.
+
+(* in every reachable state the configuration, WhitelistedOrigins included, and all components other than the list
+   of services links survive save + load unchanged *)
+Theorem reload_rest_identity e net sv :
+  reachable e net sv ->
+  sv_sessions (reload sv) = sv_sessions sv /\ sv_nicks (reload sv) = sv_nicks sv /\ sv_channels (reload sv) = sv_channels sv /\
+  sv_svsholds (reload sv) = sv_svsholds sv /\ sv_netname (reload sv) = sv_netname sv /\
+  sv_lastProcessed (reload sv) = sv_lastProcessed sv /\ sv_config (reload sv) = sv_config sv.
+Proof. intros Hr. rewrite (reload_fixpoint e net sv Hr). apply normal_fields. Qed.
+
 (* the ids that save + load drops from the list: listed, but no longer the id of a services link *)
 Definition stale (sv : server) (x : N) : bool :=
   existsb (N.eqb x) (sv_serverSessions sv) && negb (is_server_id sv x).
@@ -194,8 +216,8 @@ Qed.
 (* ---- (3) observational equivalence ------------------------------------------------------------------------------- *)
 Lemma normal_R sv : R (stale sv) (normal sv) sv.
 Proof.
-  exists (sv_serverSessions sv), (g_whitelistedOrigins (sv_config sv)). split.
-  - destruct sv as [? ? ? ? ? ? ? g]; destruct g; reflexivity.
+  exists (sv_serverSessions sv). split.
+  - destruct sv; reflexivity.
   - intros x Hx. cbn [normal sv_serverSessions]. rewrite set_of_ids_In, filter_In. split; [tauto|].
     intros Hin. split; [exact Hin|]. destruct (is_server_id sv x) eqn:His; [reflexivity|].
     exfalso. assert (stale sv x = true) by (apply stale_spec; auto). congruence.
@@ -205,15 +227,15 @@ Definition no_stale (sv : server) : Prop := forall x, In x (sv_serverSessions sv
 
 Lemma normal_R_exact sv : no_stale sv -> R (fun _ => false) (normal sv) sv.
 Proof.
-  intros Hns. exists (sv_serverSessions sv), (g_whitelistedOrigins (sv_config sv)). split.
-  - destruct sv as [? ? ? ? ? ? ? g]; destruct g; reflexivity.
+  intros Hns. exists (sv_serverSessions sv). split.
+  - destruct sv; reflexivity.
   - intros x _. cbn [normal sv_serverSessions]. rewrite set_of_ids_In, filter_In. split; [tauto|].
     intros Hin. split; [exact Hin|now apply Hns].
 Qed.
 
-(* save + load looks at neither of the two fields *)
+(* save + load does not look at the list *)
 Lemma reload_R D sv1 sv2 : R D sv1 sv2 -> reload sv2 = reload sv1.
-Proof. intros (l & w & -> & _). reflexivity. Qed.
+Proof. intros (l & -> & _). reflexivity. Qed.
 
 (* every continuation: the same outcomes entry by entry, outputs equal up to stale recipients *)
 Theorem reload_invisible e net sv :
@@ -257,8 +279,8 @@ Proof.
       rewrite <- Hrc in Hf. apply filter_In in Hf. apply Hf.
 Qed.
 
-(* literally the same outputs when the list of services links has no stale id; the states differ at most in
-   WhitelistedOrigins and in the order/multiplicity of sv_serverSessions *)
+(* literally the same outputs when the list of services links has no stale id; the states differ at most in the
+   order/multiplicity of sv_serverSessions *)
 Definition same_outcome (o1 o2 : outcome) : Prop :=
   match o1, o2 with
   | OOk s1 out1, OOk s2 out2 => R (fun _ => false) s1 s2 /\ out1 = out2
@@ -287,7 +309,7 @@ Lemma R_exact_fields sv1 sv2 :
   R (fun _ => false) sv1 sv2 ->
   sv_sessions sv2 = sv_sessions sv1 /\ sv_nicks sv2 = sv_nicks sv1 /\ sv_channels sv2 = sv_channels sv1 /\
   sv_svsholds sv2 = sv_svsholds sv1 /\ sv_netname sv2 = sv_netname sv1 /\ sv_lastProcessed sv2 = sv_lastProcessed sv1 /\
-  sv_config sv2 = cpatch (g_whitelistedOrigins (sv_config sv2)) (sv_config sv1) /\
+  sv_config sv2 = sv_config sv1 /\
   forall x, In x (sv_serverSessions sv1) <-> In x (sv_serverSessions sv2).
 Proof.
   intros H. destruct (R_fields _ _ _ H) as (H1 & H2 & H3 & H4 & H5 & H6 & H7 & H8).
@@ -340,6 +362,8 @@ Qed.
 Example ex_reload_fixpoint : reload ex_final = normal ex_final.
 Proof. exact (reload_fixpoint _ _ _ ex_reachable). Qed.
 Example ex_reload_fixpoint_computed : bool_decide (reload ex_final = normal ex_final) = true.
+Proof. vm_compute. reflexivity. Qed.
+Example ex_reload_identity_computed : bool_decide (reload ex_final = ex_final) = true.
 Proof. vm_compute. reflexivity. Qed.
 Example ex_final_nontrivial :
   size (sv_sessions ex_final) = 1 /\ size (sv_channels ex_final) = 1 /\ size (sv_nicks ex_final) = 1.
@@ -496,12 +520,12 @@ Example link_reachable : reachable ex_env "robustirc.net" link_final.
 Proof. apply (reachable_by_computation _ _ link_history); vm_compute; reflexivity. Qed.
 
 (* the state holds the link, its pseudo-client (stamped with the link's LastActivity) and a client; the list of links
-   is already normal; save + load changes WhitelistedOrigins and nothing else *)
+   is already normal; save + load keeps WhitelistedOrigins and reproduces the state exactly *)
 Example link_final_shape :
   size (sv_sessions link_final) = 3 /\ sv_serverSessions link_final = [2%N] /\
   (exists s, sv_sessions link_final !! (2%N, fnv64 "ChanServ") = Some s /\ s_created s = 5000%Z /\ s_nick s = "ChanServ") /\
   g_whitelistedOrigins (sv_config link_final) = {[ "https://chat.example.net" ]} /\
-  g_whitelistedOrigins (sv_config (reload link_final)) = ∅ /\
+  g_whitelistedOrigins (sv_config (reload link_final)) = {[ "https://chat.example.net" ]} /\
   sv_serverSessions (reload link_final) = [2%N].
 Proof.
   split; [vm_compute; reflexivity|]. split; [vm_compute; reflexivity|]. split.
@@ -509,6 +533,8 @@ Proof.
   - split; [|split]; vm_compute; reflexivity.
 Qed.
 Example link_reload_fixpoint_computed : bool_decide (reload link_final = normal link_final) = true.
+Proof. vm_compute. reflexivity. Qed.
+Example link_reload_identity_computed : bool_decide (reload link_final = link_final) = true.
 Proof. vm_compute. reflexivity. Qed.
 Example link_no_stale : no_stale link_final.
 Proof.
@@ -554,7 +580,7 @@ Qed.
 Example stale_final_shape :
   sv_serverSessions stale_final = [2%N] /\ sv_serverSessions (reload stale_final) = [] /\
   size (sv_sessions stale_final) = 1 /\ stale stale_final 2 = true.
-Proof. repeat split; vm_compute; reflexivity. Qed.
+Proof. split; [|split; [|split]]; vm_compute; reflexivity. Qed.
 
 (* and the difference shows in the recipient sets (and only there, and only as the stale id): alice's PART goes to
    {2, 6} on the instance that was never saved and to {6} on the loaded one *)
@@ -564,7 +590,7 @@ Example stale_continuation_outputs :
   map (map o_rcpt) (map outputs_of (run_trace ex_env (reload stale_final) stale_continuation)) = [[[6%N]]] /\
   map (map o_data) (map outputs_of (run_trace ex_env stale_final stale_continuation)) =
   map (map o_data) (map outputs_of (run_trace ex_env (reload stale_final) stale_continuation)).
-Proof. repeat split; vm_compute; reflexivity. Qed.
+Proof. split; [|split]; vm_compute; reflexivity. Qed.
 Example stale_continuation_theorem :
   Forall2 (Rout (stale stale_final)) (run_trace ex_env (reload stale_final) stale_continuation)
           (run_trace ex_env stale_final stale_continuation).
